@@ -563,9 +563,20 @@ func (ctx *RequestContext) Path() []byte {
 	return ctx.URI().Path()
 }
 
+// resetResponse resets the response for the helpers that replace it. A writer that has taken
+// the response over (Response.HijackWriter) may have put the head on the wire already: it
+// stays, so that whatever follows still ends that one message.
+func (ctx *RequestContext) resetResponse() {
+	hw := ctx.Response.GetHijackWriter()
+	ctx.Response.Reset()
+	if hw != nil {
+		ctx.Response.HijackWriter(hw)
+	}
+}
+
 // NotModified resets response and sets '304 Not Modified' response status code.
 func (ctx *RequestContext) NotModified() {
-	ctx.Response.Reset()
+	ctx.resetResponse()
 	ctx.SetStatusCode(consts.StatusNotModified)
 }
 
@@ -778,7 +789,7 @@ func (ctx *RequestContext) Method() []byte {
 
 // NotFound resets response and sets '404 Not Found' response status code.
 func (ctx *RequestContext) NotFound() {
-	ctx.Response.Reset()
+	ctx.resetResponse()
 	ctx.SetStatusCode(consts.StatusNotFound)
 	ctx.SetBodyString(consts.StatusMessage(consts.StatusNotFound))
 }
@@ -1118,7 +1129,7 @@ func (ctx *RequestContext) AbortWithStatus(code int) {
 //
 // Warning: this will reset the response headers and body already set!
 func (ctx *RequestContext) AbortWithMsg(msg string, statusCode int) {
-	ctx.Response.Reset()
+	ctx.resetResponse()
 	ctx.SetStatusCode(statusCode)
 	ctx.SetContentTypeBytes(bytestr.DefaultContentType)
 	ctx.SetBodyString(msg)
